@@ -25,7 +25,3 @@ pub assume_specification<'a, T: Copy>[ Option::<&'a T>::copied ](o: Option<&'a T
 #[verifier::external_body] pub fn vx_index<T>(v: &Vec<T>, i: usize) -> (r: &T) ensures i < v@.len(), *r == v@[i as int] { &v[i] }
 #[verifier::external_body] pub fn vx_index_s<T>(v: &[T], i: usize) -> (r: &T) ensures i < v@.len(), *r == v@[i as int] { &v[i] }
 #[verifier::external_body] pub fn vx_index_set<T>(v: &mut Vec<T>, i: usize, x: T) ensures i < old(v)@.len(), final(v)@ == old(v)@.update(i as int, x) { v[i] = x; }
-// std: <[T]>::contains — some element equals x.  Stated with spec equality, which is what `==` means for the integer types it is used with here
-// (usize index lists); NOT to be used for a type whose PartialEq is not structural (F64).
-pub assume_specification<T: core::cmp::PartialEq>[ <[T]>::contains ](s: &[T], x: &T) -> (r: bool)
-    ensures r == s@.contains(*x);
